@@ -21,6 +21,7 @@ func CheckC20(c *Ctx) int {
 	var wg sync.WaitGroup
 	sem := make(chan struct{}, 14)
 	nontrivial := 0
+	existing := 0
 	for i, bf := range files {
 		wg.Add(1)
 		sem <- struct{}{}
@@ -71,6 +72,42 @@ func CheckC20(c *Ctx) int {
 				local = append(local, e3)
 				os.Remove(rv)
 			}
+			// an output path that already exists: as a hard link of the source ("inplace" - whatever the command
+			// does, the source must stay byte-identical) and as a stale other database ("stale" - the command must
+			// either refuse and leave it alone, or produce the source's content)
+			cmds := [][]string{{"surgery", "freelist", "abandon"}, {"surgery", "freelist", "rebuild"}, {"surgery", "revert-meta-page"}}
+			cmdv := cmds[i%3]
+			if i%3 != 2 || d0.Txid >= 3 {
+				expect := d0.Txid
+				if i%3 == 2 {
+					expect = d0.Txid - 1
+				}
+				link := filepath.Join(dir, fmt.Sprintf("s%d-link.db", i))
+				os.Remove(link)
+				if os.Link(bf.Path, link) == nil {
+					o, code := CLI(2*time.Minute, append(append([]string{}, cmdv...), bf.Path, "--output", link)...)
+					local = append(local, Ev{"ev": "Surgery", "name": fmt.Sprintf("f%d-ps%d-inplace-%s", i, bf.Opts.PageSize, cmdv[len(cmdv)-1]), "kind": "inplace", "exit": code, "cliOut": Tail(o, 2),
+						"src": src, "versions": bf.Versions, "srcSame": fileSHA(bf.Path) == srcSHA, "m0fl": 0, "m1fl": 0, "g": map[string]any{}, "out": openObs{}, "staleSame": true, "expectTxid": expect})
+					os.Remove(link)
+					if fileSHA(bf.Path) != srcSHA {
+						_ = os.WriteFile(bf.Path, raw, 0o600) // restore for whatever follows
+					}
+				}
+				stale := filepath.Join(dir, fmt.Sprintf("s%d-stale.db", i))
+				other := files[(i+1)%len(files)]
+				if other != bf && copyTo(other.Path, stale) == nil {
+					staleSHA := fileSHA(stale)
+					o, code := CLI(2*time.Minute, append(append([]string{}, cmdv...), bf.Path, "--output", stale)...)
+					cp := stale + ".obs"
+					_ = copyTo(stale, cp)
+					obs := ObserveOpenSub(cp, bf.Profile.Name, bf.Opts.PageSize, false)
+					os.Remove(cp)
+					local = append(local, Ev{"ev": "Surgery", "name": fmt.Sprintf("f%d-ps%d-stale-%s", i, bf.Opts.PageSize, cmdv[len(cmdv)-1]), "kind": "stale", "exit": code, "cliOut": Tail(o, 2),
+						"src": src, "versions": bf.Versions, "srcSame": fileSHA(bf.Path) == srcSHA, "m0fl": 0, "m1fl": 0, "g": map[string]any{}, "out": obs, "staleSame": fileSHA(stale) == staleSHA, "expectTxid": expect})
+					os.Remove(stale)
+					existing++
+				}
+			}
 			mu.Lock()
 			evs = append(evs, local...)
 			if len(d0.FreeIDs) > 0 || d0.Txid > 3 {
@@ -87,6 +124,7 @@ func CheckC20(c *Ctx) int {
 	c.traces = len(evs)
 	c.Cov["evaluations"] = len(evs)
 	c.Cov["distinct_nontrivial"] = nontrivial
-	c.Cov["rule"] = "evaluations = outputs of `surgery freelist abandon`, `surgery freelist rebuild` (of the abandoned file) and `surgery revert-meta-page` (file at rest directly after a commit) over generated histories, page sizes 1024 / 4096 / 16384, freelist persisted or not; content hash, txid, Tx.Check and the page graph of each output are judged by TLC; non-trivial = the source had a non-empty free list or more than 2 commits"
+	c.Cov["runs_with_an_existing_output_path"] = existing
+	c.Cov["rule"] = "evaluations = outputs of `surgery freelist abandon`, `surgery freelist rebuild` (of the abandoned file) and `surgery revert-meta-page` (file at rest directly after a commit) over generated histories, page sizes 1024 / 4096 / 16384, freelist persisted or not, plus runs whose --output already exists (a hard link of the source; a stale other database); content hash, txid, Tx.Check and the page graph of each output are judged by TLC; non-trivial = the source had a non-empty free list or more than 2 commits"
 	return c.Finish(nil)
 }
